@@ -27,14 +27,19 @@ CONSTANTS
     SafeNames,               \* flat name -> identifier is injective and cannot meet Python's own names
     ClassifiesDiscrete,      \* a `discrete` variable is listed (as a variable)
     PrintsValueExpressions,  \* parameter/constant values that are expressions are printed
+    OneListPerVariable,      \* a variable with a variability and a causality prefix (parameter input ...) is listed once
     Family                   \* which program family Init draws from
 
 VARIABLES prog, phase, sym, src, lists, py, last
 vars == <<prog, phase, sym, src, lists, py, last>>
 
-SW == [par |-> SympyParenthesises, safe |-> SafeNames, disc |-> ClassifiesDiscrete, valx |-> PrintsValueExpressions]
-AsBuilt  == [par |-> FALSE, safe |-> FALSE, disc |-> FALSE, valx |-> FALSE]
-Intended == [par |-> TRUE,  safe |-> TRUE,  disc |-> TRUE,  valx |-> TRUE]
+SW == [par |-> SympyParenthesises, safe |-> SafeNames, disc |-> ClassifiesDiscrete, valx |-> PrintsValueExpressions,
+       one |-> OneListPerVariable]
+(* Pinned: the switches as the originally pinned code behaved (shape tags are computed from them);
+   AsBuilt: as the code behaves now - all four deviations have been repaired in /repo since *)
+Pinned   == [par |-> FALSE, safe |-> FALSE, disc |-> FALSE, valx |-> FALSE, one |-> FALSE]
+AsBuilt  == [par |-> TRUE,  safe |-> TRUE,  disc |-> TRUE,  valx |-> TRUE,  one |-> FALSE]
+Intended == [par |-> TRUE,  safe |-> TRUE,  disc |-> TRUE,  valx |-> TRUE,  one |-> TRUE]
 
 -----------------------------------------------------------------------------
 (* ---- Modelica side: names, expressions, meaning ---- *)
@@ -64,7 +69,10 @@ NamePool == <<
     N("a__b.c", << <<"a", "b">>, <<"c">> >>, 0)     \* 17 /  both mangle to a__b__c
 >>
 
-V(name, pre, val) == [key |-> name.key, parts |-> name.parts, us |-> name.us, pre |-> pre, val |-> val]
+(* pre: none / parameter / constant / discrete / input / output;  caus: "" or a causality prefix that follows a
+   variability prefix on the same declaration (parameter input, discrete output, ...) *)
+V2(name, pre, val, caus) == [key |-> name.key, parts |-> name.parts, us |-> name.us, pre |-> pre, val |-> val, caus |-> caus]
+V(name, pre, val) == V2(name, pre, val, "")
 Plain(k) == N(k, << <<k>> >>, 0)
 
 (* expression nodes, uniform shape [k, n, a, v] *)
@@ -121,7 +129,7 @@ Cat(p, i) ==
     LET v == p.vars[i] IN
     IF v.pre = "constant" THEN "c"
     ELSE IF v.pre = "parameter" THEN "p"
-    ELSE IF v.pre = "input" THEN "u"
+    ELSE IF v.pre = "input" \/ v.caus = "input" THEN "u"
     ELSE IF IsDerd(p, v.key) THEN "x"
     ELSE "v"
 
@@ -134,7 +142,7 @@ ExpectLists(p) ==
      p |-> SelKeys(p, LAMBDA i : Cat(p, i) = "p"),
      c |-> SelKeys(p, LAMBDA i : Cat(p, i) = "c"),
      u |-> SelKeys(p, LAMBDA i : Cat(p, i) = "u"),
-     y |-> SelKeys(p, LAMBDA i : p.vars[i].pre = "output")]
+     y |-> SelKeys(p, LAMBDA i : (p.vars[i].pre = "output" \/ p.vars[i].caus = "output") /\ Cat(p, i) \in {"x", "v"})]
 
 ExpectRes(p) == [pt \in 1..NPoints |-> [q \in DOMAIN p.eqs |-> Residual(p.eqs[q], Env(p, pt))]]
 
@@ -203,15 +211,22 @@ Sources(p, sy, sw) == [q \in DOMAIN p.eqs |-> EqSrc(p.eqs[q], sy, sw.par)]
 
 Prefixes(p, i) ==
     (IF p.vars[i].pre = "none" THEN <<>> ELSE <<p.vars[i].pre>>)
+    \o (IF p.vars[i].caus = "" THEN <<>> ELSE <<p.vars[i].caus>>)
     \o (IF IsDerd(p, p.vars[i].key) THEN <<"state">> ELSE <<>>)     \* tree.annotate_states
 InSeq(x, s) == \E j \in DOMAIN s : s[j] = x
 
 Classify(p, sw) ==
     LET n == Len(p.vars)
         all == [i \in 1..n |-> i]
-        has(i, pf) == InSeq(pf, Prefixes(p, i))
+        has0(i, pf) == InSeq(pf, Prefixes(p, i))
+        (* as built every prefix of the prefix list appends to its list; intended: constant > parameter > input win *)
+        has(i, pf) == has0(i, pf) /\ (sw.one =>
+                         CASE pf = "parameter" -> ~has0(i, "constant")
+                           [] pf = "input" -> ~has0(i, "constant") /\ ~has0(i, "parameter")
+                           [] pf \in {"output", "state"} -> ~has0(i, "constant") /\ ~has0(i, "parameter") /\ ~has0(i, "input")
+                           [] OTHER -> TRUE)
         unpref(i) == \/ Len(Prefixes(p, i)) = 0
-                     \/ sw.disc /\ Prefixes(p, i) = <<"discrete">>
+                     \/ sw.disc /\ \A j \in DOMAIN Prefixes(p, i) : Prefixes(p, i)[j] \in {"discrete", "flow"}
         states == SelectSeq(all, LAMBDA i : has(i, "state"))
         outs   == SelectSeq(all, LAMBDA i : has(i, "output"))
         vars0  == SelectSeq(all, LAMBDA i : unpref(i))
@@ -334,7 +349,9 @@ Load(p, sy, sr, ls, sw) ==
                   /\ \A id \in bound : SimpleName(id) \notin ScopeNames
                   /\ \A q \in DOMAIN sr : \A i \in DOMAIN sr[q] : tokOk(sr[q], i)
         plain(k) == InSeq(k, ls.p) \/ InSeq(k, ls.c)       \* sympy.symbols: not a function of t, derivative 0
-        symobjs == {<<sy[k], plain(k)>> : k \in listed}     \* identity of a sympy symbol: its name and its kind
+        \* identity of a sympy symbol: its name and its kind (sympy.symbols for p, c; dynamicsymbols for x, v, u)
+        symobjs == {<<sy[k], TRUE>> : k \in Range(ls.p) \cup Range(ls.c)}
+                   \cup {<<sy[k], FALSE>> : k \in Range(ls.x) \cup Range(ls.v) \cup Range(ls.u)}
         penv(pt) == LET e == Env(p, pt) IN
                     [val |-> [id \in bound |-> e.val[LastBound(p, sy, ls, id)]],
                      der |-> [id \in bound |-> IF plain(LastBound(p, sy, ls, id)) THEN Zero ELSE e.der[LastBound(p, sy, ls, id)]],
@@ -364,7 +381,7 @@ Closed(e) == e.k \notin {"ref", "der", "time"} /\ \A i \in DOMAIN e.a : Closed(e
 HasClosedCall(e) == (e.k = "call" /\ e.n # "abs" /\ Closed(e.a[1])) \/ \E i \in DOMAIN e.a : HasClosedCall(e.a[i])
 
 Tags(p) ==
-    LET syA == Symbols(p, AsBuilt)
+    LET syA == Symbols(p, Pinned)
         syI == Symbols(p, Intended)
         ids == {syA[k] : k \in Keys(p)}
         parenNeeded == \E q \in DOMAIN p.eqs :
@@ -377,6 +394,8 @@ Tags(p) ==
         \cup (IF \E id \in ids : SimpleName(id) \in ScopeNames THEN {"scope"} ELSE {})
         \cup (IF \E id \in ids : SimpleName(id) \in calls THEN {"shadow-call"} ELSE {})
         \cup (IF \E i \in DOMAIN p.vars : p.vars[i].pre = "discrete" THEN {"discrete"} ELSE {})
+        \cup (IF \E i \in DOMAIN p.vars : p.vars[i].caus # "" THEN {"two-prefixes"} ELSE {})
+        \cup (IF \E i \in DOMAIN p.vars : p.vars[i].caus # "" /\ p.vars[i].pre \in {"parameter", "constant"} THEN {"param-causality"} ELSE {})
         \cup (IF \E i \in DOMAIN p.vars : p.vars[i].pre \in {"parameter", "constant"} /\ p.vars[i].val \in {"neg", "expr"}
               THEN {"valexpr"} ELSE {})
         \cup (IF \E q \in DOMAIN p.eqs : HasClosedCall(p.eqs[q].l) \/ HasClosedCall(p.eqs[q].r) THEN {"closed-call"} ELSE {})
@@ -445,6 +464,18 @@ Options == << <<"none", FALSE, "none">>, <<"none", TRUE, "none">>, <<"output", F
               <<"discrete", FALSE, "none">>, <<"parameter", FALSE, "lit">>, <<"constant", FALSE, "lit">>,
               <<"input", FALSE, "none">>, <<"parameter", FALSE, "neg">>, <<"parameter", FALSE, "expr">>,
               <<"constant", FALSE, "neg">>, <<"parameter", FALSE, "none">> >>
+(* variability + causality on one declaration: <<pre, caus>> *)
+TwoPrefixes == {<<"parameter", "input">>, <<"constant", "input">>, <<"parameter", "output">>, <<"constant", "output">>,
+                <<"discrete", "input">>, <<"discrete", "output">>}
+(* one such variable next to each single-prefix option *)
+Class2Progs ==
+    {LET t == tp o == Options[oi]
+         v1 == V2(Plain("v1"), t[1], IF t[1] \in {"parameter", "constant"} THEN "lit" ELSE "none", t[2])
+         v2 == V(Plain("v2"), o[1], o[3])
+         e1 == IF t[1] = "discrete" /\ t[2] = "output" THEN <<Eqn(Ref("v1"), Bin("+", Ref("v2"), Lit(1)))>> ELSE <<>>
+         e2 == IF o[1] \in {"none", "output", "discrete"}
+               THEN <<Eqn(IF o[2] THEN Der("v2") ELSE Ref("v2"), Bin("+", Ref("v1"), Lit(2)))>> ELSE <<>>
+     IN  Prog("class", <<v1, v2>>, e1 \o e2) : tp \in TwoPrefixes, oi \in DOMAIN Options}
 VName(i) == <<"v1", "v2", "v3">>[i]
 ClassProg(os) ==
     LET n == Len(os)
@@ -470,16 +501,16 @@ Programs ==
              \cup PrecProgs(CallShapes, PalA, "prec") \cup PrecProgs(CallShapes, PalB, "prec")
              \cup PrecProgs(K2({}), PalC, "prec") \cup LhsProgs
              \cup NameProgs(HalfPairs, {""}) \cup NameProgs(FunPairs, {"sin", "abs"}) \cup NameExtra
-             \cup ClassProgs(2)
+             \cup ClassProgs(2) \cup Class2Progs
       [] Family = "thorough" ->
              PrecProgs(S2(AllF), PalA, "prec") \cup PrecProgs(S2(AllF), PalB, "prec")
              \cup PrecProgs(K3(QuickF), PalA, "prec") \cup PrecProgs(K3({}), PalB, "prec")
              \cup PrecProgs(S2({}), PalC, "prec") \cup LhsProgs
              \cup NameProgs(AllPairs, {"", "sin", "abs"}) \cup NameExtra
-             \cup ClassProgs(2) \cup ClassProgs(3)
+             \cup ClassProgs(2) \cup ClassProgs(3) \cup Class2Progs
       [] Family = "cex" ->       \* small family on which the as-built switches must fail
              PrecProgs(K2({}), PalA, "prec") \cup NameProgs({<<2, 3>>, <<5, 6>>, <<1, 12>>, <<1, 13>>, <<1, 10>>}, {"", "sin"})
-             \cup ClassProgs(1)
+             \cup ClassProgs(1) \cup Class2Progs
       [] Family = "file" ->      \* programs drawn by the harness (deep random trees), same semantics
              LET f == JsonDeserialize(IOEnv.PROG_FILE) IN {f[i] : i \in DOMAIN f}
 
